@@ -266,7 +266,10 @@ def fill_page(pk, target_words):
     which the ALPIDE decoder ignores outside a chip) after the last data word in front of its closing TDT; stays conforming in
     every mode. Returns the index of the grown packet or None."""
     for i, p in enumerate(pk):
-        if p.raw_payload is not None or len(p.words) >= target_words or p.words[-1][9] != 0xF0: continue
+        # the page must END the frame (TDT with packet_done = 1): only then is the last data word in front of the TDT the end of its
+        # lane's data — in a page closed by TDT(packet_done = 0) the lane continues on the next page and the inserted zeros would land
+        # inside a chip (seed sweep, seed 4: taken as a bunch counter)
+        if p.raw_payload is not None or len(p.words) >= target_words or p.words[-1][9] != 0xF0 or not (p.words[-1][8] & 1): continue
         k = len(p.words) - 2
         if k < 1 or p.words[k][9] in (0xE0, 0xE8, 0xF0, 0xE4, 0xF8): continue       # the word before the TDT must be a data word
         did = p.words[k][9]
